@@ -26,6 +26,12 @@ pub struct RunCfg {
     pub codec: Option<String>,
     pub bits: Option<usize>,
     pub profile: String,
+    /// in-process watchdog reports a stuck run here (then exits with code 3)
+    pub hang_file: Option<String>,
+    /// stop before (stage arm id, run index): used to write evidence after a fatal run
+    pub stop: Option<(u64, u64)>,
+    /// run only the stage with this arm id (second feature configuration of C04)
+    pub only_stage: Option<u64>,
 }
 
 #[derive(Clone, Copy, Debug, PartialEq, Eq)]
@@ -189,6 +195,19 @@ impl Acc {
 }
 
 pub fn plan_for(stage: &Stage, seed: u64, restrict: &Restrict) -> Plan {
+    let mut p = plan_for_inner(stage, seed, restrict);
+    // containment self-test: SIMCTL_SELFTEST=abort:<run seed> | hang:<run seed>
+    if let Ok(s) = std::env::var("SIMCTL_SELFTEST") {
+        if let Some((kind, at)) = s.split_once(':') {
+            if at.parse::<u64>().ok() == Some(seed) {
+                p.notes.push(if kind == "abort" { "SELFTEST-ABORT".into() } else { "SELFTEST-HANG".into() });
+            }
+        }
+    }
+    p
+}
+
+fn plan_for_inner(stage: &Stage, seed: u64, restrict: &Restrict) -> Plan {
     match stage.kind {
         StageKind::Pipeline(cfgs) => gen::gen_pipeline(seed, cfgs, restrict),
         StageKind::Text => gen::gen_text(seed, restrict),
@@ -207,22 +226,72 @@ fn restrict_applies(stage: &Stage, cfg_codec: Option<&str>) -> bool {
     }
 }
 
+pub static HEART_STAGE: std::sync::atomic::AtomicU64 = std::sync::atomic::AtomicU64::new(0);
+pub static HEART_INDEX: [std::sync::atomic::AtomicU64; 64] = [const { std::sync::atomic::AtomicU64::new(0) }; 64];
+pub static HEART_POINT: [std::sync::atomic::AtomicU64; 64] = [const { std::sync::atomic::AtomicU64::new(0) }; 64];
+
+/// Watchdog thread: a worker that sits on the same (index, point) for HANG_SECS is hung.
+pub fn start_watchdog(hang_file: String) {
+    use std::sync::atomic::Ordering::Relaxed;
+    std::thread::spawn(move || {
+        let mut last = [(0u64, 0u64); 64];
+        let mut stuck = [0u64; 64];
+        loop {
+            std::thread::sleep(std::time::Duration::from_secs(1));
+            for w in 0..64 {
+                let cur = (HEART_INDEX[w].load(Relaxed), HEART_POINT[w].load(Relaxed));
+                if cur.0 != 0 && cur == last[w] {
+                    stuck[w] += 1;
+                } else {
+                    stuck[w] = 0;
+                    last[w] = cur;
+                }
+                if stuck[w] >= crate::contain::HANG_SECS {
+                    let _ = std::fs::write(&hang_file, format!("{} {} {}\n", HEART_STAGE.load(Relaxed), cur.0 - 1, cur.1));
+                    println!("simctl: watchdog: stage arm-id {} run-index {} point {} has not finished for {} s", HEART_STAGE.load(Relaxed), cur.0 - 1, cur.1, stuck[w]);
+                    std::process::exit(3);
+                }
+            }
+        }
+    });
+}
+
 pub fn run_stage(stage: &Stage, base_seed: u64, jobs: usize, property: &str, codec: Option<&str>, bits: Option<usize>, keep_digests: bool) -> Acc {
+    run_stage_range(stage, base_seed, jobs, property, codec, bits, keep_digests, 0, stage.runs, None)
+}
+
+#[allow(clippy::too_many_arguments)]
+pub fn run_stage_range(
+    stage: &Stage,
+    base_seed: u64,
+    jobs: usize,
+    property: &str,
+    codec: Option<&str>,
+    bits: Option<usize>,
+    keep_digests: bool,
+    from: u64,
+    to: u64,
+    points: Option<(usize, usize)>,
+) -> Acc {
+    use std::sync::atomic::Ordering::Relaxed;
     let mut total = Acc::default();
     if !restrict_applies(stage, codec) {
         return total;
     }
-    let jobs = jobs.max(1);
+    let jobs = jobs.clamp(1, 64);
+    HEART_STAGE.store(stage.arm_id, Relaxed);
     let accs: Vec<Acc> = std::thread::scope(|s| {
         let handles: Vec<_> = (0..jobs)
             .map(|w| {
                 s.spawn(move || {
                     let restrict = Restrict { codec, bits };
                     let mut acc = Acc::default();
-                    let mut i = w as u64;
-                    while i < stage.runs {
+                    let mut i = from + w as u64;
+                    while i < to {
                         let seed = run_seed(base_seed, stage.arm_id, i);
                         acc.runs += 1;
+                        HEART_POINT[w].store(0, Relaxed);
+                        HEART_INDEX[w].store(i + 1, Relaxed);
                         if stage.kind == StageKind::Sweep {
                             let set = sweep::sweep_plans(seed, &restrict);
                             acc.sweep_records += 1;
@@ -230,6 +299,12 @@ pub fn run_stage(stage: &Stage, base_seed: u64, jobs: usize, property: &str, cod
                                 acc.sweep_exhaustive += 1;
                             }
                             for (k, p) in set.plans.iter().enumerate() {
+                                if let Some((a, b)) = points {
+                                    if k < a || k >= b {
+                                        continue;
+                                    }
+                                }
+                                HEART_POINT[w].store(k as u64, Relaxed);
                                 let rep = run_plan(p, false);
                                 acc.add(stage, i.wrapping_mul(1 << 20).wrapping_add(k as u64), p, rep, property, false);
                             }
@@ -240,6 +315,7 @@ pub fn run_stage(stage: &Stage, base_seed: u64, jobs: usize, property: &str, cod
                         }
                         i += jobs as u64;
                     }
+                    HEART_INDEX[w].store(0, Relaxed);
                     acc
                 })
             })
@@ -298,7 +374,10 @@ fn matches_finding(f: &Finding, property: &str, key: &Key) -> bool {
 
 pub fn run(cfg: &RunCfg) -> u8 {
     let t0 = Instant::now();
-    let st = stages(&cfg.property, &cfg.tier, cfg.scale);
+    let mut st = stages(&cfg.property, &cfg.tier, cfg.scale);
+    if let Some(only) = cfg.only_stage {
+        st.retain(|s| s.arm_id == only);
+    }
     if st.is_empty() {
         eprintln!("no stages for property {}", cfg.property);
         return 2;
@@ -313,9 +392,17 @@ pub fn run(cfg: &RunCfg) -> u8 {
     println!("simctl: property={} tier={} VERIF_SEED={} jobs={} profile={}", cfg.property, cfg.tier, cfg.seed, cfg.jobs, cfg.profile);
     let mut total = Acc::default();
     let mut stage_info = vec![];
+    if let Some(h) = &cfg.hang_file {
+        start_watchdog(h.clone());
+    }
     for s in &st {
         let ts = Instant::now();
-        let acc = run_stage(s, cfg.seed, cfg.jobs, &cfg.property, cfg.codec.as_deref(), cfg.bits, false);
+        let to = match cfg.stop {
+            Some((arm, idx)) if arm == s.arm_id => idx,
+            Some((arm, _)) if st.iter().position(|x| x.arm_id == arm) < st.iter().position(|x| x.arm_id == s.arm_id) => 0,
+            _ => s.runs,
+        };
+        let acc = run_stage_range(s, cfg.seed, cfg.jobs, &cfg.property, cfg.codec.as_deref(), cfg.bits, false, 0, to, None);
         let dt = ts.elapsed().as_secs_f64();
         println!("  stage {:<32} runs={:<9} evaluations={:<10} violating={:<7} {:.1}s", s.name, acc.runs, acc.evals, acc.violating_runs, dt);
         stage_info.push(json!({"stage": s.name, "runs": acc.runs, "evaluations": acc.evals, "seed_index_range": [0, s.runs], "wall_s": dt, "batch_digest": format!("{:016x}", acc.digest_sum)}));
@@ -371,7 +458,8 @@ pub fn run(cfg: &RunCfg) -> u8 {
         plan.expect = Some(Expect { class: key.class.clone(), detail: key.skeleton.clone() });
         let mut h = crate::prng::Digest::default();
         h.str(&serde_json::to_string(&plan).unwrap());
-        let path = format!("{}/{}-{}-{:08x}.json", cfg.replays, cfg.property, key.class.replace("!=", "NE"), h.finish() as u32);
+        let build = if cfg!(feature = "r09") { "" } else { "r08-" };
+        let path = format!("{}/{}-{}{}-{:08x}.json", cfg.replays, cfg.property, build, key.class.replace("!=", "NE"), h.finish() as u32);
         if let Err(e) = std::fs::write(&path, serde_json::to_string_pretty(&plan).unwrap()) {
             harness_errors.push(format!("cannot write {path}: {e}"));
             continue;
@@ -379,7 +467,7 @@ pub fn run(cfg: &RunCfg) -> u8 {
         // replay in a fresh process: must reproduce exactly
         let ok = std::env::current_exe()
             .ok()
-            .and_then(|exe| std::process::Command::new(exe).arg("replay").arg(&path).arg("--quiet").output().ok())
+            .and_then(|exe| std::process::Command::new(exe).arg("replay").arg(&path).arg("--inproc").arg("--quiet").output().ok())
             .map_or(false, |o| o.status.code() == Some(1));
         if !ok {
             harness_errors.push(format!("replay of {path} in a fresh process did not reproduce the violation"));
@@ -492,6 +580,7 @@ fn evidence(
             "known_findings_matched": known.iter().map(|(id, (f, p))| json!({"id": id, "what": f.what, "replay": p})).collect::<Vec<_>>(),
             "violations": reported.iter().map(|(k, p, v, path, _)| json!({"class": k.class, "codec": p.codec, "bits": p.bits, "detail": v.detail, "replay": path})).collect::<Vec<_>>(),
             "build_profile": cfg.profile,
+            "feature_configuration": if cfg!(feature = "r09") { "ruint features rand + rand-09 (inherent random_with/randomize_with are the rand 0.9 ones)" } else { "ruint feature rand only (inherent random_with/randomize_with are the rand 0.8 ones)" },
             "restriction": {"codec": cfg.codec, "bits": cfg.bits},
         },
         "assumptions": [
@@ -582,4 +671,12 @@ pub fn digest(property: &str, runs: u64, jobs: usize, seed: u64, per_run: bool) 
         }
     }
     println!("batch-digest {sum:016x}");
+}
+
+/// Execute a seed range of one stage without triage (used by the supervisor to isolate a fatal run).
+pub fn probe(cfg: &RunCfg, arm_id: u64, from: u64, to: u64, points: Option<(usize, usize)>) -> u8 {
+    let Some(stage) = stages(&cfg.property, &cfg.tier, cfg.scale).into_iter().find(|s| s.arm_id == arm_id) else { return 2 };
+    let acc = run_stage_range(&stage, cfg.seed, cfg.jobs, &cfg.property, cfg.codec.as_deref(), cfg.bits, false, from, to.min(stage.runs), points);
+    println!("probe: {} evaluations", acc.evals);
+    0
 }
